@@ -60,6 +60,12 @@ pub fn output_subsets() -> Vec<Vec<u8>> {
         .collect()
 }
 
+/// the 8 output-party lists that are not in ascending order (the API takes an ordered list: the first party
+/// listed reveals and forwards to the others)
+pub fn output_lists_unsorted() -> Vec<Vec<u8>> {
+    vec![vec![1, 0], vec![2, 0], vec![2, 1], vec![0, 2, 1], vec![1, 0, 2], vec![1, 2, 0], vec![2, 0, 1], vec![2, 1, 0]]
+}
+
 pub fn modes() -> Vec<(&'static str, InlineMode)> {
     vec![
         ("simple", InlineMode::Simple),
